@@ -210,7 +210,7 @@ def run_file(rep, contract_mod, only=None, workers=None, verbose=False):
         from . import replay as _rp
         from concurrent.futures import ThreadPoolExecutor
         with ThreadPoolExecutor(max_workers=min(8, len(bounded))) as ex:
-            list(ex.map(lambda nm: _rp.run_bounded(rep, contract_mod, nm, metas[nm]), bounded))
+            list(ex.map(lambda nm: _rp.run_bounded(rep, contract_mod, nm, metas[nm], seed=int(rep.seed or 0)), bounded))
     if not jobs:
         return []
     workers = workers or min(16, len(jobs), os.cpu_count() or 4)
@@ -225,7 +225,7 @@ def run_file(rep, contract_mod, only=None, workers=None, verbose=False):
         todo = [r["name"] for r in results if not r.get("timeout") and "error" not in r
                 and metas.get(r["name"], {}).get("native", True) is not False]
         with ThreadPoolExecutor(max_workers=8) as ex:
-            list(ex.map(lambda nm: _rp.cross_check(rep, contract_mod, nm, metas[nm]), todo))
+            list(ex.map(lambda nm: _rp.cross_check(rep, contract_mod, nm, metas[nm], seed=int(rep.seed or 0)), todo))
     return results
 
 
